@@ -511,6 +511,7 @@ func (r *Adaptation) acceptPluginConnections(l net.Listener) error {
 				continue
 			}
 
+			verifHook("sync.request")
 			r.requestPluginSync()
 			verifHook("sync.exclusive")
 
